@@ -189,6 +189,7 @@ type simSpeakerConf struct {
 	NoAS4    bool
 	NoRouteRefresh bool
 	ExtraCaps []bgp.ParameterCapabilityInterface // appended to the generated capabilities (used when Caps == nil)
+	Keepalive bool // with Hold > 0: send KEEPALIVE every Hold/3 until goSilent (harnesses that script keepalives themselves leave it off)
 	Port     uint16
 	Local    string // gobgp-side (local) address of the connections offered by connectPassive; "" = simLocalAddr
 }
@@ -210,6 +211,9 @@ type simSpeaker struct {
 	txAddPath map[bgp.Family]bool // path ids present in what we send
 	ext       bool
 	dupID     []string // protocol-level anomalies seen by the receiver model
+	txSem     chan struct{}        // serialises the speaker's writers (net.Pipe would park a second writer on a mutex, which is not durably blocking)
+	silent    bool                 // keepalive sender switched off (goSilent)
+	lastKA    time.Time            // (virtual) time of the last message written (it restarts gobgp's hold timer)
 	overMax   int                  // >0: note paths that arrive while the prefix already holds overMax paths
 	overSent  map[simRouteKey]bool // such paths (until withdrawn / session end)
 	readerWG  sync.WaitGroup
@@ -224,7 +228,7 @@ func (n *simNet) newSpeaker(c simSpeakerConf) *simSpeaker {
 	if c.Port == 0 {
 		c.Port = 40000
 	}
-	sp := &simSpeaker{n: n, conf: c, view: map[simRouteKey]simRoute{}, eor: map[bgp.Family]int{}, done: make(chan struct{})}
+	sp := &simSpeaker{n: n, conf: c, view: map[simRouteKey]simRoute{}, eor: map[bgp.Family]int{}, done: make(chan struct{}), txSem: make(chan struct{}, 1)}
 	sp.gate = sync.NewCond(&sp.pmu)
 	n.mu.Lock()
 	n.speakers[c.Addr] = sp
@@ -354,7 +358,61 @@ func (sp *simSpeaker) handshake(mine net.Conn) error {
 	}
 	sp.readerWG.Add(1)
 	go sp.reader(mine, sp.done)
+	if sp.conf.Keepalive && sp.conf.Hold >= 3 {
+		sp.mu.Lock()
+		sp.silent, sp.lastKA = false, time.Now()
+		sp.mu.Unlock()
+		go sp.keepaliveSender(mine, sp.done, time.Duration(sp.conf.Hold)*time.Second/3)
+	}
 	return nil
+}
+
+// keepaliveSender keeps the session alive until the connection ends or goSilent is called.
+func (sp *simSpeaker) keepaliveSender(c net.Conn, done chan struct{}, every time.Duration) {
+	for {
+		select {
+		case <-done:
+			return
+		case <-time.After(every):
+		}
+		sp.mu.Lock()
+		silent, cur := sp.silent, sp.c
+		if !silent && cur == c {
+			sp.lastKA = time.Now()
+		}
+		sp.mu.Unlock()
+		if silent || cur != c {
+			return
+		}
+		if sp.sendMsg(bgp.NewBGPKeepAliveMessage()) != nil {
+			return
+		}
+	}
+}
+
+// goSilent stops the keepalive sender so that gobgp's hold timer runs out one hold time after the last
+// KEEPALIVE. With crossing set, the speaker's own hold-timer expiry is played at that very (virtual)
+// instant: NOTIFICATION 4/0 and close arrive while gobgp's hold timer fires. Returns immediately.
+func (sp *simSpeaker) goSilent(crossing bool) {
+	sp.mu.Lock()
+	sp.silent = true
+	c, last, done := sp.c, sp.lastKA, sp.done
+	sp.mu.Unlock()
+	if !crossing || c == nil {
+		return
+	}
+	hold := time.Duration(sp.conf.Hold) * time.Second
+	go func() {
+		select {
+		case <-done:
+			return
+		case <-time.After(time.Until(last.Add(hold))):
+		}
+		if b, err := bgp.NewBGPNotificationMessage(bgp.BGP_ERROR_HOLD_TIMER_EXPIRED, 0, nil).Serialize(); err == nil {
+			sp.write(c, b)
+		}
+		c.Close()
+	}()
 }
 
 // negotiate derives, from gobgp's OPEN and our own capabilities, how the byte stream is framed.
@@ -569,12 +627,21 @@ func (sp *simSpeaker) sendMsg(m *bgp.BGPMessage) error {
 	sp.mu.Lock()
 	opt := sp.txOptions()
 	c := sp.c
+	sp.lastKA = time.Now() // any message restarts gobgp's hold timer
 	sp.mu.Unlock()
 	b, err := m.Serialize(opt)
 	if err != nil {
 		return fmt.Errorf("simnet: serialize: %w", err)
 	}
-	_, err = c.Write(b)
+	return sp.write(c, b)
+}
+
+// write puts b on the wire; concurrent writers (script, keepalive sender, crossing NOTIFICATION) queue on a
+// channel so that a writer waiting for its turn is durably blocked like one waiting for the reader.
+func (sp *simSpeaker) write(c net.Conn, b []byte) error {
+	sp.txSem <- struct{}{}
+	defer func() { <-sp.txSem }()
+	_, err := c.Write(b)
 	return err
 }
 
@@ -582,8 +649,7 @@ func (sp *simSpeaker) sendRaw(b []byte) error {
 	sp.mu.Lock()
 	c := sp.c
 	sp.mu.Unlock()
-	_, err := c.Write(b)
-	return err
+	return sp.write(c, b)
 }
 
 func (sp *simSpeaker) close() {
